@@ -72,6 +72,7 @@ def install():
                                                 sub={"_collect_checkpoint_batch", "fetch_paginated_operations"})
     _lowered["producer"] = colower.lower_method(ExecutionState, "create_checkpoint", PRODUCER_POINTS)
     assert _lowered["collect"] >= 2 and _lowered["consumer"] >= 6 and _lowered["producer"] >= 3, _lowered
+    ExecutionState._orig_calculate_operation_size = ExecutionState.__dict__['_calculate_operation_size']   # the unmodified staticmethod
     ExecutionState._calculate_operation_size = staticmethod(lambda q: 0 if q.operation_update is None else q.operation_update.size)
     return _lowered
 
@@ -127,6 +128,7 @@ class World:
         self.state = ExecutionState("arn", "tok0", {}, client, CheckpointBatcherConfig(max_bytes, window, max_ops))
         self.sched = sched.Sched(pre_step, pre_to, choices, max_steps)
         self.handover = []   # order in which updates entered the main queue
+        self.arrived = set()
         self.outcomes = {}   # producer name -> ("ok",) | ("err", exc) ; absent = still blocked
         self.returned_at = {}  # producer name -> number of backend-applied updates when create_checkpoint returned
         st = self.state
@@ -180,8 +182,19 @@ class World:
                 return id(q.completion_event) in self.wake_error and self.wake_error[id(q.completion_event)] is None
         return False
 
-    def producer(self, name, update, is_sync):
+    def producer(self, name, update, is_sync, arrives_at=None):
+        """arrives_at=k: the caller enters create_checkpoint exactly when the k-th scheduling step begins (a preemption registered for step k
+        switches to it); before that it does not exist for the scheduler"""
+        w = self
+
+        class _Gate:
+            def is_set(self_):  # noqa: N805
+                return w.sched.step >= arrives_at
+
         def body():
+            if arrives_at is not None:
+                yield ("blocked", _Gate())
+                w.arrived.add(name)
             try:
                 yield from self.state._co_create_checkpoint(update, is_sync)
             except BackgroundThreadError as e:
